@@ -71,6 +71,19 @@ class HashableCounter(Generic[T], typing.Counter[T], Counter):
             h ^= hash((key, value))
         return h
 
+    def __eq__(self, other):
+        # Counter.__eq__ (Python >= 3.10) looks every element of both counters up in both of them. The elements are
+        # nodes, which compare structurally, so for mappings nested in mappings each of those lookups descends into the
+        # nested counters and does the same again: exponential in the nesting depth. Counts here are always positive,
+        # so plain dict equality (one lookup per element) gives the same answer.
+        if not isinstance(other, Counter):
+            return NotImplemented
+        return dict.__eq__(self, other)
+
+    def __ne__(self, other):
+        eq = self.__eq__(other)
+        return eq if eq is NotImplemented else not eq
+
     def elements(self) -> Iterator:
         """Iterator over elements repeating each as many times as its count.
 
@@ -106,6 +119,19 @@ class OrderedCounter(Counter, OrderedDict):
         for key, value in self.items():
             h ^= hash((key, value))
         return h
+
+    def __eq__(self, other):
+        # Counter.__eq__ (Python >= 3.10) looks every element of both counters up in both of them. The elements are
+        # nodes, which compare structurally, so for mappings nested in mappings each of those lookups descends into the
+        # nested counters and does the same again: exponential in the nesting depth. Counts here are always positive,
+        # so plain dict equality (one lookup per element) gives the same answer.
+        if not isinstance(other, Counter):
+            return NotImplemented
+        return dict.__eq__(self, other)
+
+    def __ne__(self, other):
+        eq = self.__eq__(other)
+        return eq if eq is NotImplemented else not eq
 
     def __repr__(self):
         return '%s(%r)' % (self.__class__.__name__, OrderedDict(self))
